@@ -56,6 +56,8 @@ impl Add<Duration> for Instant {
 impl Sub<Duration> for Instant {
     type Output = Instant;
     fn sub(self, d: Duration) -> Instant {
+        // (std's clock starts at an arbitrary point well above zero, the simulated one at zero: going
+        // below the start of the simulation saturates instead of panicking)
         Instant(self.0.saturating_sub(dur_ns(d)))
     }
 }
